@@ -17,6 +17,7 @@ pub fn extra_scenarios() -> Vec<Scenario> {
         Scenario::FragTwin(1),
         Scenario::FragTwin(2),
         Scenario::FragTwin(3),
+        Scenario::FragTwin(4),
         Scenario::FaultEnum(0),
         Scenario::FaultEnum(1),
         Scenario::Table,
@@ -68,10 +69,19 @@ pub fn cfg_for(scn: Scenario, t: &mut Tape, extra: u64) -> RunCfg {
             c.p_partial_write = [200, 600, 900][t.choose(3) as usize];
             c.p_frag_read = [0, 400][t.choose(2) as usize];
             c.p_cancel = [200, 400, 700][t.choose(3) as usize];
-            if t.chance(1, 3) {
-                // timed variant: a keep-alive runs and the application does something else for
-                // 0.6 .. 1.4 s after an operation was cancelled (compared modulo PINGREQs)
-                c.keepalive_s = 1 + t.choose(2) as u16;
+            match t.choose(3) {
+                1 => {
+                    // timed variant: a keep-alive runs and the application does something else
+                    // for 0.6 .. 1.4 s after an operation was cancelled (compared modulo PINGREQs)
+                    c.keepalive_s = 1 + t.choose(2) as u16;
+                }
+                2 => {
+                    // keep-alive with the same timing in both executions (time passes only in
+                    // script steps; cancellations take none): compared PINGREQs included
+                    c.keepalive_s = 1 + t.choose(2) as u16;
+                    c.twin_same_timing = true;
+                }
+                _ => {}
             }
             c
         }
@@ -113,7 +123,12 @@ pub fn cfg_for(scn: Scenario, t: &mut Tape, extra: u64) -> RunCfg {
                 c.keepalive_s = if app_timeout { 0 } else { 1 };
                 c.p_no_pingresp = 1000;
             }
-            if k == 0 || k == 2 || k == 3 {
+            if k == 4 {
+                c.p_fail_reason = 0;
+                c.p_withhold_ack = 0;
+                c.p_dup_inbound = 0;
+            }
+            if k == 0 || k == 2 || k == 3 || k == 4 {
                 c.p_partial_write = 0;
                 c.p_frag_read = 0;
                 c.client_id = "c".into();
@@ -209,6 +224,7 @@ pub fn run_scenario(scn: Scenario, extra: u64) {
         Scenario::FragTwin(0) => frag_enum(extra, false),
         Scenario::FragTwin(2) => frag_enum(extra, true),
         Scenario::FragTwin(3) => frag_long(extra),
+        Scenario::FragTwin(4) => frag_loss(extra),
         Scenario::FragTwin(_) => frag_twin(),
         Scenario::FaultEnum(k) => crate::scen2::fault_enum(k, extra),
         Scenario::Table => crate::scen2::table(extra),
@@ -420,7 +436,7 @@ fn exec_script(session: &mut minimq::Session<'_>, script: &[SStep]) {
             // timed variant: after a cancellation the application is busy elsewhere for a while
             // (never in the uncancelled run, whose schedule tape is all zero)
             with(|w| {
-                if w.cfg.keepalive_s > 0 && w.cfg.p_cancel > 0 && w.results.last().is_some_and(|r| r.ends_with(":Cancelled") && !r.starts_with("poll:")) && w.s_chance(500, 1000) {
+                if w.cfg.keepalive_s > 0 && !w.cfg.twin_same_timing && w.cfg.p_cancel > 0 && w.results.last().is_some_and(|r| r.ends_with(":Cancelled") && !r.starts_with("poll:")) && w.s_chance(500, 1000) {
                     let d = [600 * clock::US_PER_MS, 900 * clock::US_PER_MS, 1400 * clock::US_PER_MS][w.s_choose(3) as usize];
                     w.probe("twin_pause_after_cancellation");
                     w.log(|| format!("app: does something else for {d} us after the cancellation"));
@@ -589,7 +605,8 @@ fn cancel_twin() {
         // ... and from the twin what the base run refused for lack of a resource: requests that
         // were cancelled before being enqueued leave the twin with more room than the base run
         let drop_tag = |k: &String| twin.not_accepted.iter().chain(base.refused_for_resources.iter()).any(|t| k.ends_with(&format!(" t{t}")));
-        let filt = |v: &Vec<Vec<String>>| -> Vec<String> { v.iter().flatten().filter(|k| !drop_tag(k) && *k != "DISCONNECT" && *k != "PINGREQ").cloned().collect() };
+        let keep_pings = w.cfg.twin_same_timing;
+        let filt = |v: &Vec<Vec<String>>| -> Vec<String> { v.iter().flatten().filter(|k| !drop_tag(k) && *k != "DISCONNECT" && (keep_pings || *k != "PINGREQ")).cloned().collect() };
         let a = filt(&base.keys);
         let b = filt(&twin.keys);
         let nd = |v: &Vec<Vec<String>>| v.iter().flatten().filter(|k| *k == "DISCONNECT").count();
@@ -819,6 +836,131 @@ fn frag_long(extra: u64) {
             );
         }
     });
+}
+
+/// C15: the transport dies at the same point of the same program in both executions - right
+/// after the first write call of one packet - but that call accepted the whole packet in one
+/// execution and only its first k bytes in the other. The resumed connection must look the same.
+fn frag_loss(extra: u64) {
+    let kind = extra % 4;
+    let k = 1 + ((extra / 4) % 48) as usize;
+    let base = loss_once(kind, usize::MAX);
+    let base_cut = with(|w| w.cut);
+    let vals = with(|w| w.tape.vals.clone());
+    let first = second_world(vals, None);
+    let twin = loss_once(kind, k);
+    absorb(first);
+    with(|w| {
+        w.probe("twin_fragmented");
+        w.probe("loss_after_partial_acceptance");
+        if w.cut {
+            if !base_cut {
+                if let Some(sig) = w.violations.iter().find(|v| v.prop == "C01").map(|v| v.sig.clone()) {
+                    let tail = sig.trim_start_matches("C01/").split("/op=").next().unwrap_or("").to_string();
+                    w.violate_force(
+                        "C15",
+                        format!("stream-corrupted-after-loss-inside-a-partially-accepted-packet/{tail}"),
+                        format!("the transport died after accepting {k} bytes of a packet; the resumed connection's byte stream is corrupt, it is not when the whole packet had been accepted"),
+                    );
+                }
+            }
+            return;
+        }
+        // (what the broker saw of the cut packet differs between the two executions, and so does
+        // everything it answers later: compared are the results up to the reconnect and the
+        // first two packets of the resumed connection - CONNECT and the retransmission)
+        let upto = |o: &TwinObs| -> Vec<String> {
+            let mut v = Vec::new();
+            let mut connects = 0;
+            for r in &o.results {
+                if r.starts_with("connect:") {
+                    connects += 1;
+                }
+                if r.starts_with("poll:") {
+                    continue;
+                }
+                v.push(r.clone());
+                if connects == 2 {
+                    break;
+                }
+            }
+            v
+        };
+        if upto(&base) != upto(&twin) {
+            w.violate("C15", "results-differ/loss-after-partial-acceptance".into(), format!("whole packet accepted: {:?}; {k} bytes accepted: {:?}", upto(&base), upto(&twin)));
+        }
+        let head = |w: &World, o: &TwinObs| -> Vec<u8> {
+            // raw bytes of the first two complete packets of the last connection
+            let _ = o;
+            let c = w.conns.last().unwrap();
+            let end = c.packets.get(1).map(|p| p.start + p.len).unwrap_or(0);
+            c.wire[..end.min(c.wire.len())].to_vec()
+        };
+        let twin_head = head(w, &twin);
+        let base_head: Vec<u8> = {
+            let wire = base.wires.last().cloned().unwrap_or_default();
+            wire[..twin_head.len().min(wire.len())].to_vec()
+        };
+        if twin_head.is_empty() || base_head != twin_head {
+            w.violate(
+                "C15",
+                "outbound-bytes-differ/resumed-connection-after-loss-inside-a-packet".into(),
+                format!("resumed connection starts with (whole packet accepted before the loss) {}; ({k} bytes accepted) {}", crate::util::hex(&base_head), crate::util::hex(&twin_head)),
+            );
+        }
+    });
+}
+
+fn loss_once(kind: u64, k: usize) -> TwinObs {
+    with(|w| {
+        w.twin_mode = true;
+        w.sched = Some(Tape::replay(Vec::new(), 0));
+        w.script_start_pos = w.tape.pos;
+    });
+    let cfg = with(|w| w.cfg.clone());
+    with_session(&cfg, |s| {
+        let small_pub = |w: &mut World, q: u8| {
+            let mut p = gen_publish(w, q);
+            p.props.clear();
+            p.correlate = None;
+            p.payload_fails = false;
+            p.payload = (0..40u8).collect();
+            p
+        };
+        if let ConnectOutcome::Up(mut conn) = do_connect(s, false) {
+            let _ = drain_to_idle(&mut conn);
+            match kind {
+                0 | 1 => {
+                    let spec = with(|w| small_pub(w, if kind == 0 { 1 } else { 2 }));
+                    with(|w| w.die_after_accepting = Some(k));
+                    let _ = do_publish(&mut conn, &spec);
+                }
+                2 => {
+                    let mut spec = with(gen_subscribe);
+                    spec.props.clear();
+                    with(|w| w.die_after_accepting = Some(k));
+                    let _ = do_subscribe(&mut conn, &spec);
+                }
+                _ => {
+                    // the PUBREL of a QoS 2 exchange is the packet that is cut
+                    let spec = with(|w| small_pub(w, 2));
+                    let _ = do_publish(&mut conn, &spec);
+                    with(|w| w.die_after_accepting = Some(k));
+                    let _ = drain_to_idle(&mut conn);
+                }
+            }
+            with(|w| {
+                w.die_after_accepting = None;
+                close_conn(w, "frag: transport lost")
+            });
+            drop(conn);
+        }
+        if let ConnectOutcome::Up(mut conn) = do_connect(s, false) {
+            let _ = drain_to_idle(&mut conn);
+            with(|w| close_conn(w, "frag: end"));
+        }
+    });
+    with(|w| observe(w))
 }
 
 fn frag_once(stream: &[u8], mask: Option<u64>, gaps: bool) -> TwinObs {
